@@ -88,6 +88,9 @@ def cases(draw):
                 it["attrs"].insert(0, "#[derive(%s)]" % d)
             else:
                 it["attrs"].append("#[derive(%s)]" % d)
+            if "Clone" not in d and "Copy" not in d and draw(st.booleans()):
+                # a second derive attribute carrying what the first one lacks
+                it["attrs"].append("#[derive(%s)]" % draw(st.sampled_from(["Clone, Copy", "Copy, Clone", "Clone"])))
             derived = True
     if derived:
         placed = list(placed) + ["derive-on-enum"]
